@@ -11,7 +11,7 @@ use abs::*;
 use adlt::dlt::DltMessage;
 use adlt::filter::functions::{filter_as_streams, filters_from_dlf};
 use adlt::filter::{Filter, FilterKindContainer};
-use adlt::utils::remote_utils::{match_filters, StreamContext};
+use adlt::utils::remote_utils::{match_filters, process_stream_new_msgs, StreamContext};
 use std::collections::HashSet;
 use std::io::BufRead;
 use std::sync::mpsc::channel;
@@ -152,6 +152,151 @@ fn run_stream_paced(filters: Vec<Filter>, msgs: &[DltMessage], s: &[usize]) -> R
     Ok(StreamObs { fwd, ret })
 }
 
+/// the remote stream front-end: StreamContext::from(JSON) and process_stream_new_msgs as remote.rs drives them - the
+/// messages arrive in `portions` portions, each call gets the messages from all_msgs_last_processed_len on; the stream
+/// consists of filtered_msgs, or of all messages when the context reports no active filter. Returns, per position of the
+/// input, whether the stream contains it.
+fn run_ctx_stream(fs: &[AFilter], command: &str, msgs: &[DltMessage], s: &[usize], portions: usize) -> Result<Vec<bool>, String> {
+    let js = json!({"window":[0, 1_000_000],"filters": fs.iter().map(|f| render_json(f, true)).collect::<Vec<_>>()}).to_string();
+    let all: Vec<DltMessage> = s.iter().map(|k| msgs[*k - 1].clone()).collect();
+    let command = command.to_string();
+    catch(std::panic::AssertUnwindSafe(move || -> Result<Vec<bool>, String> {
+        let mut ctx = StreamContext::from(&logger(), &command, &js).map_err(|e| format!("StreamContext::from failed: {}", e))?;
+        let n = all.len();
+        let cuts: Vec<usize> = (1..=portions).map(|k| n * k / portions).collect();
+        for avail in cuts {
+            // remote.rs: process the messages that arrived since the last call (until nothing is left)
+            for _ in 0..4 {
+                let from = ctx.all_msgs_last_processed_len.min(avail);
+                process_stream_new_msgs(&mut ctx, from, &all[from..avail], 3_000_000);
+                if ctx.all_msgs_last_processed_len >= avail {
+                    break;
+                }
+            }
+        }
+        let mut inside = vec![false; n];
+        if ctx.filters_active {
+            let mut prev: Option<usize> = None;
+            for i in &ctx.filtered_msgs {
+                if *i >= n || prev.map(|p| p >= *i).unwrap_or(false) {
+                    return Err(format!("filtered_msgs is not an ascending list of message indices: {:?}", ctx.filtered_msgs));
+                }
+                prev = Some(*i);
+                inside[*i] = true;
+            }
+        } else {
+            for (i, x) in inside.iter_mut().enumerate() {
+                *x = i < ctx.all_msgs_last_processed_len;
+            }
+        }
+        Ok(inside)
+    }))
+    .unwrap_or_else(|p| Err(format!("panic: {}", p)))
+}
+
+// ---------------------------------------------------------------------------------------------- export plugin
+// the hasher type of adlt's lifecycle map without naming its crate
+trait HasherOf {
+    type S;
+}
+impl<K: Eq + std::hash::Hash, V, M, S: std::hash::BuildHasher> HasherOf for evmap::ReadHandle<K, V, M, S> {
+    type S = S;
+}
+type LcS = <adlt::lifecycle::LcsRType as HasherOf>::S;
+
+/// the lifecycle table of the export runs: abstract lifecycle k (1..4) -> a real Lifecycle (own ecu, disjoint times)
+struct LcTable {
+    lcs_r: adlt::lifecycle::LcsRType,
+    _lcs_w: evmap::WriteHandle<adlt::lifecycle::LifecycleId, adlt::lifecycle::LifecycleItem, (), LcS>,
+    ids: Vec<u32>,          // real id of abstract lifecycle k (index k - 1)
+    infos: Vec<Value>,      // lifecyclesToKeep entry of abstract lifecycle k
+}
+fn lc_table() -> LcTable {
+    let (lcs_r, mut lcs_w) = evmap::Options::default().with_hasher(LcS::default()).construct::<adlt::lifecycle::LifecycleId, adlt::lifecycle::LifecycleItem>();
+    let ecus = ["AB", "AB", "BA", "A"];
+    let mut ids = Vec::new();
+    let mut infos = Vec::new();
+    for (k, ecu) in ecus.iter().enumerate() {
+        let t0 = BASE_US + (k as u64 + 1) * 1_000_000_000;
+        let mut m0 = mk_msg(0, ecu, t0, 100_000, vec![]);
+        let mut lc = adlt::lifecycle::Lifecycle::new(&mut m0);
+        let mut m1 = mk_msg(1, ecu, t0 + 50_000_000, 600_000, vec![]);
+        let _ = lc.update(&mut m1, 0);
+        ids.push(lc.id());
+        infos.push(json!({"ecu": ecu, "startTime": lc.start_time - 1_000_000, "endTime": lc.end_time() + 1_000_000}));
+        lcs_w.insert(lc.id(), lc);
+    }
+    lcs_w.refresh();
+    LcTable { lcs_r, _lcs_w: lcs_w, ids, infos }
+}
+
+struct ExportObs {
+    fwd: Vec<(usize, bool)>, // (position 1-based or 0, intact)
+    exported: i64,           // nrExportedMsgs of the plugin state (-1: not reported)
+}
+
+/// an ExportPlugin with the filter set and the lifecycles to keep processes the messages; the exported file is read back
+fn run_export(fs: &[AFilter], xmsgs: &[AMsg], s: &[usize], keep: &[u32], lct: &LcTable, file: &str) -> Result<ExportObs, String> {
+    use adlt::plugins::plugin::Plugin;
+    let real = |k: u32| -> u32 { lct.ids.get(k as usize - 1).copied().unwrap_or(900_000 + k) };
+    let filters: Vec<Value> = fs.iter().map(|f| {
+        let mut g = f.clone();
+        g.lcs.ids = g.lcs.ids.iter().map(|k| real(*k)).collect();
+        render_json(&g, true)
+    }).collect();
+    let mut cfg = json!({"name":"verif","enabled":true,"exportFileName":file,"filters":filters});
+    if !keep.is_empty() {
+        cfg["lifecyclesToKeep"] = Value::Array(keep.iter().map(|k| lct.infos[*k as usize - 1].clone()).collect());
+    }
+    let input: Vec<DltMessage> = s.iter().enumerate().map(|(p, k)| {
+        let a = &xmsgs[*k - 1];
+        let mut m = mk_dlt_msg(p as u32 + 1, a);
+        m.lifecycle = real(a.lc);
+        m.timestamp_dms = p as u32 + 1; // the position travels in the timestamp (written to the file)
+        m
+    }).collect();
+    let orig = input.clone();
+    let _ = std::fs::remove_file(file);
+    let res = catch(std::panic::AssertUnwindSafe(|| -> Result<i64, String> {
+        let mut plugin = adlt::plugins::export::ExportPlugin::from_json(cfg.as_object().unwrap()).map_err(|e| format!("ExportPlugin::from_json failed: {}", e))?;
+        plugin.set_lifecycle_read_handle(&lct.lcs_r);
+        for mut m in input {
+            plugin.process_msg(&mut m);
+        }
+        plugin.sync_all();
+        let st = plugin.state();
+        let n = st.read().map(|st| st.value["infos"]["nrExportedMsgs"].as_i64().unwrap_or(-1)).unwrap_or(-1);
+        Ok(n)
+    }));
+    let exported = match res {
+        Ok(Ok(n)) => n,
+        Ok(Err(e)) => return Err(e),
+        Err(p) => return Err(format!("panic: {}", p)),
+    };
+    let mut fwd = Vec::new();
+    if let Ok(fi) = std::fs::File::open(file) {
+        let rd = adlt::utils::LowMarkBufReader::new(fi, 512 * 1024, adlt::dlt::DLT_MAX_STORAGE_MSG_SIZE);
+        let it = adlt::utils::get_dlt_message_iterator("dlt", 0, rd, adlt::utils::get_new_namespace(), None, None, None);
+        for m in it {
+            // the plugin writes its own info messages (apid VsDl, ctid Info) in front
+            if m.apid().map(|a| a.as_buf() == b"VsDl").unwrap_or(false) && m.ctid().map(|c| c.as_buf() == b"Info").unwrap_or(false) {
+                continue;
+            }
+            let p = m.timestamp_dms as usize;
+            if p >= 1 && p <= orig.len() {
+                let o = &orig[p - 1];
+                let intact = o.ecu == m.ecu && o.extended_header == m.extended_header && o.payload == m.payload && o.standard_header.mcnt == m.standard_header.mcnt
+                    && o.reception_time_us == m.reception_time_us;
+                fwd.push((p, intact));
+            } else {
+                fwd.push((0, false));
+            }
+        }
+    }
+    let _ = std::fs::remove_file(file);
+    Ok(ExportObs { fwd, exported })
+}
+
 /// no enabled positive or negative filter: only disabled, marker and event filters (or no filter at all)
 fn inert_only(fs: &[AFilter]) -> bool {
     !fs.iter().any(|f| f.enabled && (f.kind == 0 || f.kind == 1))
@@ -169,12 +314,19 @@ impl Out {
     }
 }
 
+/// the additional front-ends of a case: remote stream context and export plugin
+struct Extra<'a> {
+    ctx: Option<(usize, &'static str, usize)>, // stream index, command, portions
+    export: Option<(&'a [AMsg], &'a [usize], usize, &'a [u32], &'a LcTable, String)>, // xmsgs, xstream, option index, lifecycles to keep, table, file
+}
+
 struct Pred {
+    xkeep: Vec<Vec<bool>>,
     keep_ev: Vec<bool>,
     fwd: Vec<(Vec<usize>, usize, usize)>, // per stream: positions, passed, filtered
 }
 
-fn run_case(o: &mut Out, fs: &[AFilter], amsgs: &[AMsg], streams: &[Vec<usize>], pred: Option<&Pred>, sampled: bool, dlf_style: u32, src: &str, paced: Option<(usize, Result<StreamObs, String>)>) {
+fn run_case(o: &mut Out, fs: &[AFilter], amsgs: &[AMsg], streams: &[Vec<usize>], pred: Option<&Pred>, sampled: bool, dlf_style: u32, src: &str, paced: Option<(usize, Result<StreamObs, String>)>, extra: Extra) {
     let case = o.case;
     o.case += 1;
     let msgs: Vec<DltMessage> = amsgs.iter().enumerate().map(|(i, m)| mk_dlt_msg(i as u32 + 1, m)).collect();
@@ -250,10 +402,74 @@ fn run_case(o: &mut Out, fs: &[AFilter], amsgs: &[AMsg], streams: &[Vec<usize>],
             }
         }
     }
+    // the remote stream front-end
+    if let Some((si, command, portions)) = extra.ctx {
+        let s = &streams[si];
+        let name = if command == "stream" { "stream_context_stream" } else { "stream_context_query" };
+        match run_ctx_stream(fs, command, &msgs, s, portions) {
+            Ok(inside) => {
+                for (p, kept) in inside.iter().enumerate() {
+                    let k = s[p] - 1;
+                    let d = pred.map(|pr| pr.keep_ev[k] != *kept).unwrap_or(true);
+                    if d || sampled {
+                        evs.push(json!({"ev":"set","impl":name,"mi":k + 1,"kept":kept,"pred":pred.map(|pr| pr.keep_ev[k] as i32).unwrap_or(-1),"portions":portions}));
+                    }
+                    if pred.is_some() {
+                        if d { drift += 1 } else { fast += 1 }
+                    }
+                }
+                o.bump("stream_context_runs", 1);
+                o.bump(&format!("stream_context_runs_{}_portions", portions), 1);
+                o.bump(if fs.iter().any(|f| f.enabled && f.kind == 3) && inert_only(fs) { "stream_context_runs_event_filters_only" } else { "stream_context_runs_other_sets" }, 1);
+                o.bump("set_decisions", inside.len() as u64);
+            }
+            Err(e) => evs.push(json!({"ev":"error","msg":e})),
+        }
+    }
+    // the export plugin
+    let mut xmsgs_hdr: Option<&[AMsg]> = None;
+    if let Some((xmsgs, xs, c, keep, lct, file)) = extra.export {
+        xmsgs_hdr = Some(xmsgs);
+        match run_export(fs, xmsgs, xs, keep, lct, &file) {
+            Ok(ob) => {
+                let pos: Vec<usize> = ob.fwd.iter().map(|x| x.0).collect();
+                let intact = ob.fwd.iter().all(|x| x.1);
+                let d = match pred {
+                    Some(pr) => {
+                        let want: Vec<usize> = (1..=xs.len()).filter(|p| pr.xkeep[c][xs[*p - 1] - 1]).collect();
+                        !(pos == want && intact && ob.exported == pos.len() as i64)
+                    }
+                    None => true,
+                };
+                if pred.is_some() {
+                    if d { drift += 1 } else { fast += 1 }
+                }
+                if d || sampled {
+                    evs.push(json!({"ev":"export","s":xs,"keep_lcs":keep}));
+                    for (p, i) in &ob.fwd {
+                        evs.push(json!({"ev":"xfwd","pos":p,"intact":i}));
+                    }
+                    evs.push(json!({"ev":"xend","exported":ob.exported}));
+                }
+                o.bump("export_runs", 1);
+                o.bump(if keep.is_empty() { "export_runs_without_lifecycles_to_keep" } else { "export_runs_with_lifecycles_to_keep" }, 1);
+                if !keep.is_empty() && fs.iter().any(|f| f.enabled && f.kind == 1 && f.lcs.k == "list" && !f.lcs.ids.is_empty()) {
+                    o.bump("export_runs_lifecycles_to_keep_and_negative_filter_with_lifecycles", 1);
+                }
+                o.bump("export_msgs", xs.len() as u64);
+                o.bump("export_exported", ob.fwd.len() as u64);
+            }
+            Err(e) => evs.push(json!({"ev":"error","msg":e})),
+        }
+    }
     o.bump("drift", drift);
     o.bump("fast_path", fast);
     if !evs.is_empty() || failed.is_some() || sampled {
-        o.t.ev(json!({"ev":"reset","case":case,"hdr":{"F":fs,"msgs":amsgs,"src":src}}));
+        let mut hdr = json!({"F":fs,"msgs":amsgs,"src":src});
+        if let Some(x) = xmsgs_hdr {
+            hdr["xmsgs"] = json!(x);
+        }
+        o.t.ev(json!({"ev":"reset","case":case,"hdr":hdr}));
         o.bump("slow_path", evs.len() as u64);
         for e in evs {
             o.t.ev(e);
@@ -272,11 +488,19 @@ fn main() {
     let mut o = Out { t: Trace::create(&a.str("--out", "trace.ndjson")), case: 0, cases_written: 0, stats: Default::default() };
     let mut rng = Rng::new(a.num("--seed", 1));
     let sample = a.num("--sample", 200);
+    let tmp = a.str("--tmp", ".");
+    let lct = lc_table();
     if let (Some(tab), Some(file)) = (a.get("--tables"), a.get("--scenarios")) {
         let tab: Value = serde_json::from_str(&std::fs::read_to_string(tab).expect("tables")).expect("tables json");
         let pool: Vec<AFilter> = serde_json::from_value(tab["pool"].clone()).expect("pool");
         let amsgs: Vec<AMsg> = serde_json::from_value(tab["msgs"].clone()).expect("msgs");
         let streams: Vec<Vec<usize>> = serde_json::from_value(tab["streams"].clone()).expect("streams");
+        let xmsgs: Vec<AMsg> = serde_json::from_value(tab["xmsgs"].clone()).expect("xmsgs");
+        let xstream: Vec<usize> = serde_json::from_value(tab["xstream"].clone()).expect("xstream");
+        let xkeepopts: Vec<Vec<u32>> = serde_json::from_value(tab["xkeepopts"].clone()).expect("xkeepopts");
+        // the stream that holds every message once is the one fed through the remote stream context
+        let ctx_stream = streams.iter().position(|st| st.len() == amsgs.len() && st.iter().collect::<HashSet<_>>().len() == amsgs.len()).expect("a stream with every message once");
+        let export_every = a.num("--export-every", 1) as usize;
         let lines = |file: &str| std::io::BufReader::new(std::fs::File::open(file).expect("open scenarios")).lines().map(|l| l.unwrap()).filter(|l| !l.trim().is_empty());
         let total = lines(file).count();
         let mut sampled: HashSet<usize> = HashSet::new();
@@ -330,13 +554,20 @@ fn main() {
             let items: Vec<usize> = serde_json::from_value(s["items"].clone()).expect("items");
             let fs: Vec<AFilter> = items.iter().map(|j| pool[*j - 1].clone()).collect();
             let pred = Pred {
+                xkeep: serde_json::from_value(s["xkeep"].clone()).expect("xkeep"),
                 keep_ev: serde_json::from_value(s["keepEv"].clone()).expect("keepEv"),
                 fwd: s["fwd"].as_array().expect("fwd").iter().map(|x| {
                     (serde_json::from_value(x["pos"].clone()).expect("pos"), x["passed"].as_u64().unwrap() as usize, x["filtered"].as_u64().unwrap() as usize)
                 }).collect(),
             };
             let paced = paced_obs.remove(&i).map(|ob| (paced_stream, ob));
-            run_case(&mut o, &fs, &amsgs, &streams, Some(&pred), sampled.contains(&i), style_of(i), "tlc", paced);
+            let c = i % xkeepopts.len();
+            let has_lcs = fs.iter().any(|f| f.lcs.k == "list");
+            let extra = Extra {
+                ctx: Some((ctx_stream, ["stream", "query"][i % 2], 1 + (i / 2) % 3)),
+                export: if export_every > 0 && (has_lcs || i % export_every == 0) { Some((&xmsgs[..], &xstream[..], c, &xkeepopts[c][..], &lct, format!("{}/export_{}.dlt", tmp, i))) } else { None },
+            };
+            run_case(&mut o, &fs, &amsgs, &streams, Some(&pred), sampled.contains(&i), style_of(i), "tlc", paced, extra);
             o.bump("scenarios", 1);
         }
     }
@@ -408,7 +639,9 @@ fn main() {
         } else {
             None
         };
-        run_case(&mut o, &fs, &amsgs, &streams, None, true, 0, "random", paced);
+        let portions = 1 + (ri as usize) % 3;
+        let extra = Extra { ctx: if streams[0].is_empty() { None } else { Some((0, ["stream", "query"][(ri as usize) % 2], portions)) }, export: None };
+        run_case(&mut o, &fs, &amsgs, &streams, None, true, 0, "random", paced, extra);
         o.bump("random_cases", 1);
     }
     o.t.flush();
